@@ -512,8 +512,8 @@ def i1(ctx):
                 # external nondeterminism that the single-threaded reference does not have
                 if sem.has(lb, 'trylocked', 'None'):
                     continue
-                if sem.has(lb, 'late', 'T'):
-                    continue
+                if sem.has(lb, 'late', 'T') and op[0] == 'recv' and want in ('registered', 'err:SendClosed'):
+                    continue  # a timed receive with nothing available may report Timeout instead of waiting
                 npairs += 1
                 kind = path_kind(ctx, b, p, evs, op)
                 wkind = want
